@@ -13,6 +13,7 @@ mod c08;
 mod c09;
 mod c10;
 mod c11;
+mod c12;
 mod c07;
 mod c14;
 mod c20;
@@ -58,6 +59,7 @@ fn main() {
         "C09" => c09::run(&o),
         "C10" => c10::run(&o),
         "C11" => c11::run(&o),
+        "C12" => c12::run(&o),
         "C07" => c07::run(&o),
         "C14" => c14::run(&o),
         "C20" => c20::run(&o),
